@@ -371,6 +371,8 @@ static void runSteps(Scenario& s, const std::vector<Step>& steps, JobDef* self, 
       emit("CancelStart", "\"by\":" + q(by));
       s.queue->cancelAllJobs();
       emit("CancelEnd", "\"by\":" + q(by));
+      // children whose script ends "waitfile:%T/cancelled" reach their own end only from here on
+      { std::string f = s.tmpdir + "/cancelled"; int fd = ::open(f.c_str(), O_CREAT | O_WRONLY, 0644); if (fd >= 0) ::close(fd); }
     } else if (st.op == "spawn") spawn(s, *s.procs.at(st.arg), self, ctx);
     else if (st.op == "wait") { Gate* g = s.gate(st.arg); std::unique_lock<std::mutex> l(g->m); g->cv.wait(l, [g] { return g->open; }); }
     else if (st.op == "open") { Gate* g = s.gate(st.arg); { std::lock_guard<std::mutex> l(g->m); g->open = true; } g->cv.notify_all(); }
